@@ -104,10 +104,7 @@ func (g *gen) connect() {
 		o.Level, o.Proto = 4, "MQIsdp"
 		pkt, bad = mq.Connect(o), true
 	case k < 8: // unacceptable client identifier
-		o.ClientID = strings.Repeat("x", 33)
-		if r.Bool() {
-			o.ClientID = "a\x01b"
-		}
+		o.ClientID = []string{strings.Repeat("x", 33), "a\x01b", "dev\x7f01", "\x7f", "a\x1fb", "caf\xc3\xa9", "\x80"}[r.Intn(7)]
 		pkt, bad = mq.Connect(o), true
 	case k < 10: // empty identifier without clean session
 		o.ClientID, o.Clean = "", false
@@ -332,6 +329,10 @@ func genWillSessions(r *hx.Rng) []hx.Group {
 			o.Will, o.WillTopic, o.WillMsg, o.WillQoS, o.WillRet = true, "will/dev", []byte("gone"), r.Intn(3), r.Chance(35)
 			if r.Chance(15) {
 				o.WillMsg = []byte("other")
+			}
+			if r.Chance(15) {
+				// a will the topic store refuses to route: the rest of the teardown must not depend on it
+				o.WillTopic = []string{"$will/dev", "will/$dev"}[r.Intn(2)]
 			}
 		}
 		evs = append(evs, evConnect(id, true, mq.Connect(o)))
